@@ -108,6 +108,10 @@ class EncPath:
                 ts = set(a.args[1])
                 self.guard_types = ts if self.guard_types is None else \
                     (self.guard_types & ts)
+        if self.guard_types is None and isinstance(P, Sym) and \
+                kn.types.get(P):
+            # a disjunction of isinstance tests (joined branches)
+            self.guard_types = set(kn.types[P])
         self.range = kn.bounds.get(P)
 
 
